@@ -131,11 +131,25 @@ pub proof fn lemma_hunk_wf_from_lines<L>(h: Hunk<L>, len_max: int, line_max: int
     requires
         hunk_wf_lines(h, len_max, line_max),
         len_max < BIG(),
-        line_max < BIG(),
+        line_max < LBIG(),
     ensures
         hunk_wf(h),
 {
     reveal(ctx_wf);
+}
+
+/// hunk_wf (the precondition of the apply layer, specs/hunk.rs) follows from what parse_hunk establishes: start lines
+/// <= MAX_LINE() = 2^62-1 < LBIG(), sides no longer than the consumed input.  The one remaining hypothesis is a machine
+/// fact: the patch text is shorter than 2^60 bytes.
+pub proof fn lemma_hunk_wf_of_parsed<'a>(h: TextHunk<'a>, hd: HeaderSpec, len_max: int)
+    requires
+        hunk_wf_lines(h, len_max, MAX_LINE()),
+        hunk_start_lines(h, hd),
+        len_max < BIG(),
+    ensures
+        hunk_wf(h),
+{
+    lemma_hunk_wf_from_lines(h, len_max, MAX_LINE());
 }
 
 pub proof fn lemma_ctx_wf_empty<L>()
